@@ -416,11 +416,16 @@ def referenced_names(struct):
     for f in struct.fields:
         for e in (f.start, f.size, f.cond, f.expr):
             _refs(e, acc)
-        if f.type is not None and f.type[0] == "struct":
-            for a in f.type[2]:
-                _refs(a, acc)
-        if f.type is not None and f.type[0] == "array":
-            _refs(f.type[2], acc)
+        t = f.type
+        while t is not None:
+            if t[0] == "struct":
+                for a in t[2]:
+                    _refs(a, acc)
+            if t[0] == "array":
+                _refs(t[2], acc)
+                t = t[1]          # the element type may take arguments too
+                continue
+            break
     _refs(struct.requires, acc)
     # references through virtual fields
     changed = True
